@@ -457,7 +457,7 @@ func Check(a CheckArgs) int {
 			Mode: "tape", Tape: fv.Tape, OrigTape: fv.OrigTape, Expected: fv.Violation, Shrunk: fv.Shrunk, CodeFingerprint: codeFP}
 		if fv.Kind == "no-progress" {
 			rf.Mode = "history"
-			rf.Worker, rf.Workers, rf.Runs, rf.BudgetMs = int(fv.Run%int64(workers)), workers, spec.Runs, spec.RunBudgetMs*10
+			rf.Worker, rf.Workers, rf.Runs, rf.BudgetMs = int(fv.Run%int64(workers)), workers, spec.Runs, spec.RunBudgetMs*3
 			rf.ReplayedOK = true // confirmed by confirmHang in a fresh process
 		} else {
 			// replay the (shrunk) tape in a fresh process before reporting it
@@ -590,7 +590,7 @@ func Check(a CheckArgs) int {
 func confirmHang(exe string, a CheckArgs, info *EngineInfo, spec TierSpec, s *WorkerSummary, idx, workers int, workDir string) (*FoundViolation, bool) {
 	h := s.Hang
 	spec2 := spec
-	spec2.RunBudgetMs = spec.RunBudgetMs * 10
+	spec2.RunBudgetMs = spec.RunBudgetMs * 3
 	spec2.ShrinkSecs = 0
 	spec2.WallSeconds = 0
 	try := func(extra ...string) (bool, *WorkerSummary) {
@@ -624,7 +624,7 @@ func confirmHang(exe string, a CheckArgs, info *EngineInfo, spec TierSpec, s *Wo
 	sig := "no-progress"
 	fv := &FoundViolation{
 		Violation: Violation{Property: a.Prop, Kind: "no-progress", Signature: sig,
-			Detail: fmt.Sprintf("run %d did not finish within %d ms (watchdog reason: %s), confirmed on re-execution in a fresh process (%s) with a 10x budget; xjs has no blocking call, so this is a loop that makes no progress",
+			Detail: fmt.Sprintf("run %d did not finish within %d ms (watchdog reason: %s), confirmed on re-execution in a fresh process (%s) with a 3x budget; xjs has no blocking call, so this is a loop that makes no progress",
 				h.Run, spec.RunBudgetMs, h.Reason, mode)},
 		Run: h.Run, Tape: h.Tape,
 	}
